@@ -129,6 +129,66 @@ fn form_steps_unary(asm: &Asm, mach: &mut Mach, rng: &mut Rng, sh: &mut Shards, 
     }
 }
 
+/// Every boundary value of the operand in every KIND of destination (register, data label, direct address, based-indexed
+/// address): the value an instruction finds in a memory operand is otherwise whatever the background memory holds, so a
+/// slip that needs one particular value in one particular operand form would never be seen.  `unary`: operations with one
+/// operand; `binary`: (class, operations) whose destination takes the lattice value and whose source is a register or immediate.
+fn value_lattice_forms(asm: &Asm, mach: &mut Mach, rng: &mut Rng, sh: &mut Shards, unary: &[&'static str], binary: &[(&'static str, &'static str)], stride: usize) {
+    use std::sync::atomic::Ordering;
+    crate::gen::PLACE.store(false, Ordering::Relaxed);
+    const MBU: usize = 1 << 20;
+    let mut n = 0usize;
+    for w in [8u8, 16u8] {
+        let values: Vec<u16> = if w == 8 { lattice8().into_iter().map(|x| x as u16).collect() } else { lattice16() };
+        for kind in 0..4usize {
+            for (vi, v) in values.iter().enumerate() {
+                let mut regs = random_regs(rng);
+                regs.ds = 0x1000;
+                regs.bx = 0x0100;
+                regs.si = 0x0020;
+                let (dst, addr): (Opnd, Option<usize>) = match kind {
+                    0 => {
+                        let r = if w == 8 { "dl" } else { "dx" };
+                        regs.set(r, *v);
+                        (if w == 8 { Opnd::Reg8("dl") } else { Opnd::Reg16("dx") }, None)
+                    }
+                    1 => (Opnd::Label { name: "vl32".into(), off: 32 }, Some(0x10000 + 32)),
+                    2 => (Opnd::Mem { seg: "", base: "", index: "", disp: 0x300, has_disp: true }, Some(0x10300)),
+                    _ => (Opnd::Mem { seg: "", base: "bx", index: "si", disp: 4, has_disp: true }, Some(0x10124)),
+                };
+                let memset: Vec<(usize, u8)> = match addr { Some(a) => vec![(a, (*v & 0xFF) as u8), ((a + 1) % MBU, (*v >> 8) as u8)], None => vec![] };
+                let mut todo: Vec<Ins> = Vec::new();
+                for op in unary {
+                    todo.push(if *op == "not" { Ins::Not { w, dst: dst.clone() } } else { Ins::UnArith { op, w, dst: dst.clone() } });
+                }
+                for (cls, op) in binary {
+                    // sources: a register holding a boundary value, and an immediate
+                    let sv = values[(vi * 7 + n) % values.len()];
+                    let sreg = if w == 8 { Opnd::Reg8("ch") } else { Opnd::Reg16("cx") };
+                    regs.set(if w == 8 { "ch" } else { "cx" }, sv);
+                    let imm = Opnd::Imm(if w == 8 { (sv & 0xFF) as i32 } else { sv as i32 });
+                    for src in [sreg, imm] {
+                        todo.push(match *cls {
+                            "binarith" => Ins::BinArith { op, w, dst: dst.clone(), src },
+                            _ => Ins::Logic { op, w, dst: dst.clone(), src },
+                        });
+                    }
+                }
+                for ins in todo {
+                    n += 1;
+                    if n % stride != 0 && kind != 1 {
+                        continue; // quick tier: every stride-th case, but every case for the data-label destination
+                    }
+                    let evs = run_one(asm, mach, &ins, &rand_spelling(rng), &regs, rng.u16(), rng.below(256) as i64, &memset, &[]);
+                    sh.count("value-lattice-x-operand-kind", 1);
+                    sh.unit(&evs);
+                }
+            }
+        }
+    }
+    crate::gen::PLACE.store(true, Ordering::Relaxed);
+}
+
 pub fn rand_spelling(rng: &mut Rng) -> Spelling {
     Spelling {
         case: if rng.chance(1, 2) { Case::Lower } else { Case::Upper },
@@ -202,6 +262,7 @@ fn gen_c01(asm: &Asm, mach: &mut Mach, rng: &mut Rng, sh: &mut Shards, thorough:
     let (ps, pm) = if thorough { (40, 6) } else { (4, 1) };
     form_steps_binary(asm, mach, rng, sh, "binarith", &ops, true, ps, pm);
     form_steps_unary(asm, mach, rng, sh, &["inc", "dec", "neg"], ps, pm);
+    value_lattice_forms(asm, mach, rng, sh, &["inc", "dec", "neg"], &[("binarith", "add"), ("binarith", "adc"), ("binarith", "sub"), ("binarith", "sbb"), ("binarith", "cmp")], if thorough { 1 } else { 3 });
 }
 
 pub const SHIFT_MNS: [(&str, &str); 8] = [("sal", "sal"), ("sal", "shl"), ("shr", "shr"), ("sar", "sar"), ("rol", "rol"), ("ror", "ror"), ("rcl", "rcl"), ("rcr", "rcr")];
@@ -348,6 +409,7 @@ fn gen_c02(asm: &Asm, mach: &mut Mach, rng: &mut Rng, sh: &mut Shards, thorough:
     let (ps, pm) = if thorough { (30, 4) } else { (3, 1) };
     form_steps_binary(asm, mach, rng, sh, "logic", &lops, false, ps, pm);
     form_steps_unary(asm, mach, rng, sh, &["not"], ps, pm);
+    value_lattice_forms(asm, mach, rng, sh, &["not"], &[("logic", "and"), ("logic", "or"), ("logic", "xor"), ("logic", "test")], if thorough { 1 } else { 3 });
     form_steps_shift(asm, mach, rng, sh, ps.min(4), if thorough { 1 } else { 0 });
     if !thorough {
         // one pass over the memory shapes with a random shift mnemonic each
@@ -437,6 +499,7 @@ fn gen_c03(asm: &Asm, mach: &mut Mach, rng: &mut Rng, sh: &mut Shards, thorough:
     // operand forms
     let (ps, pm) = if thorough { (30, 4) } else { (3, 1) };
     form_steps_unary(asm, mach, rng, sh, &mops, ps, pm);
+    value_lattice_forms(asm, mach, rng, sh, &mops, &[], if thorough { 1 } else { 2 });
 }
 
 pub const JCC_SPELLINGS: [&str; 31] = ["jmp", "ja", "jnbe", "jae", "jnb", "jb", "jnae", "jbe", "jna", "jc", "je", "jz", "jg", "jnle", "jge", "jnl", "jl", "jnge", "jle", "jng", "jnc", "jne", "jnz", "jno", "jnp", "jpo", "jns", "jo", "jp", "jpe", "js"];
